@@ -19,8 +19,13 @@
     seed <mnemonic> <password>          -> ok <seed> | err <kind>
     wallet <type> <hdpath> <bip39> <scrypt> <hdsubs> <keycnt> <testnet> <ltc> <atype> <seed=> <file> <scryptout>
         -> ok <mnemonic> <rootX> <leafX> <nx> <xtra>… <nk> {<priv> <wif> <p2kh> <listed> <listLabel> <label> <lookup>}… | err <kind>
+    session <the 12 wallet tokens> <op>…   with <op> = make | msg:<addr> | dump:<addr> | tx:<script>,<script>…
+        one process running these operations on its key store (Model/WalletKeysStore.lean; the functions that write
+        stored keys are Gen.WalletKeyStoreFacts.keyWritersLive)
+        -> ok <number of records at the end> <used>…   one <used> per op: "-" (make) or a comma list of <index>:<key bytes> | none
 -/
 import GocoinV.Model.WalletKeys
+import GocoinV.Model.WalletKeysStore
 import GocoinV.Base.Ripemd160
 import GocoinV.Base.C14_Sha512
 import GocoinV.Base.Proto
@@ -63,6 +68,19 @@ def werr : WalletKeys.WErr → String
   | .waltype => "waltype" | .hdpath => "hdpath" | .bip39count => "bip39count" | .emptySeed => "emptyseed"
   | .scryptMnemonic => "scryptmnemonic" | .scrypt => "scrypt" | .bip39 e => "bip39-" ++ berrStr e
   | .hd f => "hd-" ++ failStr f
+
+def opTok (t : String) : Option WalletKeys.Store.Op :=
+  if t == "make" then some .makeWallet
+  else if t.startsWith "msg:" then (Hex.decode (t.drop 4).toString).map .signMessage
+  else if t.startsWith "dump:" then (Hex.decode (t.drop 5).toString).map .dumpPrvkey
+  else if t.startsWith "tx:" then (((t.drop 3).toString.splitOn ",").mapM Hex.decode).map .signTx
+  else none
+
+def usedStr (us : List WalletKeys.Store.Used) : String :=
+  if us.isEmpty then "-" else
+  ",".intercalate (us.map fun u => match u with
+    | none => "none"
+    | some (i, k) => s!"{i}:{Hex.encode k}")
 
 def step (_ : Unit) (toks : List String) : Unit × String :=
   let bad := ((), "bad-op")
@@ -172,6 +190,20 @@ def step (_ : Unit) (toks : List String) : Unit × String :=
           let tail := if w.keys.isEmpty then "" else " " ++ " ".intercalate ks
           ((), s!"{head}{mid} {w.keys.length}{tail}")
       | _, _, _, _ => bad
+    | _, _, _, _, _, _, _, _ => bad
+  | "session" :: ty :: hp :: b39 :: scr :: subs :: cnt :: tn :: ltc :: aty :: ss :: file :: so :: ops =>
+    match ty.toNat?, Hex.decode hp, int? b39, scr.toNat?, subs.toNat?, cnt.toNat?, bool? tn, bool? ltc with
+    | some ty, some hp, some b39, some scr, some subs, some cnt, some tn, some ltc =>
+      match atype? aty, Hex.decode ss, Hex.decode file, Hex.decode so, ops.mapM opTok with
+      | some aty, some ss, some file, some so, some ops =>
+        let C := mkC (if so.isEmpty then none else some so)
+        let cfg : WalletKeys.Config := { waltype := ty, hdpath := hp, bip39wrds := b39, usescrypt := scr, hdsubs := subs, keycnt := cnt, testnet := tn, litecoin := ltc, atype := aty, secretSeed := ss }
+        match WalletKeys.makeWallet C cfg file with
+        | .error e => ((), s!"err {werr e}")
+        | .ok w =>
+          let (fin, us) := WalletKeys.Store.run Gen.WalletKeyStoreFacts.keyWritersLive C cfg w.keys (List.replicate 32 0xee) [] ops
+          ((), s!"ok {fin.length} {" ".intercalate (us.map usedStr)}")
+      | _, _, _, _, _ => bad
     | _, _, _, _, _, _, _, _ => bad
   | _ => bad
 
